@@ -189,7 +189,8 @@ type KV struct {
 }
 
 var wfHosts = []string{"example.com", "www.example.org", "a.b", "cdn.site.net", "media.example.com", "x1.y2.z3"}
-var wfSegs = []string{"a", "b", "c", "dir", "img", "x.png", "index.html", "v1", "style.css", "a-b", "a_b", "~u", "file.tar.gz", "p2", "A"}
+// (the last four: percent-encoded reserved characters - a directory or file name that contains "/", "?", "#" or "%" itself)
+var wfSegs = []string{"a", "b", "c", "dir", "img", "x.png", "index.html", "v1", "style.css", "a-b", "a_b", "~u", "file.tar.gz", "p2", "A", "AC%2FDC", "What%3F", "C%23", "100%25"}
 var wfKeys = []string{"a", "b", "c", "q", "id", "page", "x.y", "k-1", "utm_source", "k%3D1", "a%3Bb", "p%26q"}
 var wfVals = []string{"1", "2", "", "x", "hello", "x+y", "x%20y", "%C3%A9", "a.b", "A_B-c~d", "%26amp", "100%25", "a%3Bb", "x%3Dy", "%3D", "k%3Dv%26w%3Bz", "%3b", "http://other.example/x", "https://other.example/a/b.html"}
 
